@@ -1857,8 +1857,11 @@ protected:    // interface for the derived class
             return true;
         // if the state machine is interrupted, do not handle any event
         // unless the event is the end interrupt event
+        // (Event can be deduced as a reference type by the forwarding functions)
+        typedef typename ::boost::remove_cv<
+            typename ::boost::remove_reference<Event>::type>::type event_type;
         if ( is_flag_active< ::boost::msm::InterruptedFlag>() &&
-            !is_flag_active< ::boost::msm::EndInterruptFlag<Event> >())
+            !is_flag_active< ::boost::msm::EndInterruptFlag<event_type> >())
             return true;
         return false;
     }
